@@ -31,10 +31,33 @@ var extraExplanations = map[string]string{
 	"C43": "R-METRICS-UNCONDITIONAL: the request counter and duration histogram depend only on the token being ours, metrics being enabled and the instrument existing, and no return lies between the token test and them. R-EXTRACT-UNCONDITIONAL: the caller's trace context is extracted whenever a propagator and transport metadata exist.",
 }
 
+// Rules added after the second seeding round (rules_seedfix3.go).
+var extraExplanations2 = map[string]string{
+	"C02": "R-VALIDATION-ERR-TYPED: every refusal ReadRequest returns after its drain is a *RpcError itself, because serveOne recognises refusable requests by a direct type assertion. R-DRAIN-UNBOUNDED: drainInputStream reads the connection reader itself (no byte limit) until the stream ends.",
+	"C03": "R-UNLOCK-DEFERRED: ReadBatch, which slices the mapping with caller-supplied bounds under s.mu, releases the lock by defer. R-RESOLVE-NONNIL: ResolveExternalLocation reports success only with its input or a batch tested non-nil.",
+	"C04": "R-EXTRA-JSON: the log_extra value written by writeLogBatch / ClientLog comes from encoding/json.Marshal. R-FIELD-BY-DESCRIPTOR: serializeVgirpcStruct reads each column through its descriptor's Go field index. R-HANDLER-ERR-NOT-TRANSPORT: serveUnary/serveStream never return the handler's error as the transport error.",
+	"C06": "R-VALIDATE-DATA: OutputCollector.validate succeeds only under dataBatchIdx >= 0. R-CAST-IDENTITY: castRecordBatch returns its input only for equal schemas, otherwise a batch built on the target schema, and walks fields only under equal column counts.",
+	"C12": "R-VERSION-EXACT: the unsealed version byte is compared for equality. R-ERRORS-VERBATIM: resolveCall returns openToken/checkTokenAge failures unchanged. R-CALL-TOKEN-REQUIRED: a resolveCall failure on the continuation route is answered with an error and nothing else runs.",
+	"C13": "R-AAD-VERBATIM: the functions that build associated data apply no case/trim/replace transform to identity fields. R-CALL-TOKEN-REQUIRED: see C12.",
+	"C14": "R-METHOD-BOUND-ALL-SITES: every cursor-open site of the continuation route compares that cursor's Method with the route's method, the refusal is written 4xx, and the input cast that runs before the cursor is opened cannot panic on a narrower batch.",
+	"C15": "R-TOKENS-READ-TOGETHER: wherever the continuation route reads the cursor from a batch's metadata it reads the call token from the same metadata. R-AGE-RESOLUTION: the age compared with the TTL is a time.Duration from time.Since/Sub. R-MINT-ONCE: call tokens are minted (and the cache warmed) only by /init.",
+	"C16": "R-CAST-NOT-ON-CANCEL: every input cast of the continuation route is under !cancelled. R-APPEND-ONLY: OutputCollector.batches only grows by append (dataBatchIdx stays valid).",
+	"C19": "R-CAPPED-EVERYWHERE: dispatch never calls the uncapped produce loop and always passes the response buffer. R-EXTERNAL-CHARGE: the external running total is charged the raw byte count reported by the upload, which is the length of the serializer's own (pre-compression) output.",
+	"C20": "R-CONST-HEADER-KEYS: handlers write response headers only under constant names (no names taken from iterated upstream data). R-CAPABILITY-ALL-PATHS: addCapabilityHeaders sets VGI-Externalization-Enabled (and every unconditional capability header) on every path. R-EXPOSE-WHEN-EMITTED: VGI-Auth-Proxy-Required is emitted exactly under the non-empty-hint condition it is exposed under.",
+	"C22": "R-AUTH-NIL-ON-REFUSAL: after authenticate has written a refusal every reachable return yields nil. R-AUTH-VERBATIM: SetAuthenticate stores the operator's callback itself.",
+	"C25": "R-LOOKUP-BEFORE-EVICT: capacity eviction in checkAndAdd happens only after the nonce lookup. R-ORIGIN-VERBATIM: proofCanonicalString applies no string transform to its fields.",
+	"C26": "R-SIZE-IN-BYTES: the credential cap compares len(token) in bytes.",
+	"C29": "R-RELEASE-DEFERRED-ONLY: request handlers release the session lock only through one deferred call. R-REMOVE-BEFORE-CLOSE: drainExpired removes entries from the map (under the lock) before closing their state (outside it). R-TOKEN-BOUNDS: every constant slice bound in openSessionToken is covered by a dominating len() guard on that slice.",
+	"C37": "R-STREAM-ERR-RECORDED: every error batch serveStream writes is mirrored by a non-nil streamErr. R-START-ACTIVATES: every normal return after OnDispatchStart arms the end hook.",
+	"C41": "R-LOCAL-ARRAYS-RELEASED: functions that park freshly built arrays in a local column slice release them on every return (per-element defer, or a cleanup loop over the slice on the error path).",
+}
+
 func applyExtraExplanations() {
-	for id, extra := range extraExplanations {
-		if p, ok := registry[id]; ok {
-			p.Explanation += " " + extra
+	for _, m := range []map[string]string{extraExplanations, extraExplanations2} {
+		for id, extra := range m {
+			if p, ok := registry[id]; ok {
+				p.Explanation += " " + extra
+			}
 		}
 	}
 }
